@@ -1538,66 +1538,110 @@ def run_c11(ctx) -> Corr:
 
 def _c12_oracle(corr: Corr, h: Hist, io) -> None:
     """C12 restated over one observed trace: every send ends written / held for a sleeping destination / in a library
-    error; whatever is held is handed to the transport (once) at its node's next wake - whatever happened in between."""
-    pending = {}
+    error; whatever is held is handed to the transport (once) at its node's next wake - whatever happened in between.
+
+    "The message" of a send is the object as it reads AT THE CALL: a caller's object (an operation with a handle, see
+    `gw.caller_object`) that was sent before and had attributes assigned since is judged by its line as it is now.
+    What is held for a sleeping node is the caller's object itself (`set_messages[key] = message`): an assignment to it
+    while it waits changes the command that waits - the entry stays under the key it was held under, and what the wake
+    of the node it is NOW addressed to has to hand to the transport is its line as it reads at that wake."""
+    pending = {}          # key it was held under -> {"line", "node", "obj": handle | None, "step"}
+
+    def caller_assigns(handle, fields):
+        for e in pending.values():
+            if e["obj"] == handle:
+                if e["line"] != line_of(fields):
+                    corr.count("oracle: the caller assigned to an object while it was held")
+                e["line"], e["node"] = line_of(fields), fields[0]
+
     for i, op in enumerate(h.ops):
         before, o = io[i], io[i + 1]
         case = {"history": Hist(h.version, h.metric, h.preload, h.ops[: i + 1]).to_json(), "outcome": o["out"],
                 "writes": [list(w) for w in o["writes"]]}
         if op[0] == "session":
             continue
+        if op[0] == "assign":
+            caller_assigns(op[1], op[2])
+            continue
         if op[0] == "send":
             f = op[1]
+            handle = op[4] if len(op) > 4 else None
             if f is None:
                 if o["out"] != "err invalidMessage" or o["writes"]:
                     corr.violate("an object that is not a message was not rejected as an invalid message", case)
                     break
                 continue
+            if handle is not None:
+                caller_assigns(handle, f)
+                case["object"] = handle
             if o["out"].startswith("foreign"):
                 corr.violate("send raised an exception that is not a library error", case)
                 break
             if o["out"].startswith("err"):
                 continue
             line = line_of(f)
-            written = [w for w in o["writes"] if w == (line, True)]
             key = (f[0], f[1], f[4])
-            is_parked = any(tuple(k) == key and p == f[5] for k, p in o["sbuf"])
+            # (observed on the gateway: the buffer's entry for the key is the message that was sent / this call made it so)
+            is_held, held_by_call = o["held"]
             sleeping = f[0] in before["nodes"] and before["nodes"][f[0]]["sleeping"]
-            if len(written) == 1 and not is_parked:
+            if o["writes"] == [(line, True)] and not held_by_call:
                 continue
-            if not written and is_parked and sleeping:
-                pending[key] = line
+            if not o["writes"] and is_held and sleeping:
+                pending[key] = {"line": line, "node": f[0], "obj": handle, "step": i + 1}
                 corr.count("oracle: send held for a sleeping destination")
                 continue
+            if o["writes"] and (line, True) not in o["writes"]:
+                corr.violate("send returned normally, but what it handed to the transport is not the line of the message "
+                             "as it was at the call", {**case, "line_of_the_message": line})
+                break
             corr.violate("send returned normally but the message was neither written nor held for a sleeping destination", case)
             break
         else:
             f = fields_of(op[1])
-            if f is not None and is_wake(before["proto"], f):
+            if f is not None and is_wake(before["proto"], f) and f[0] in before["nodes"] and not _heartbeat_accepted(before["proto"], f):
+                # a heartbeat response whose payload is no number is an invalid message, not a wake (what is held stays held)
+                corr.count("oracle: heartbeat response with a payload that is no number (no wake)")
+            elif f is not None and is_wake(before["proto"], f) and f[0] in before["nodes"]:
                 got = [w[0] for w in o["writes"] if w[1]]
                 failed = o["out"] in ("err transportFailed", "foreign CancelledError") and any(not w[1] for w in o["writes"])
-                flagged = f[0] in before["nodes"] and before["nodes"][f[0]]["sleeping"]
-                for key in [k for k in pending if k[0] == f[0]]:
-                    if pending[key] in got:
-                        if got.count(pending[key]) > 1:
-                            corr.violate("a held message was handed to the transport more than once at its node's wake", case)
-                        corr.count("oracle: held message released at its node's wake" if flagged else
-                                   "oracle: held message released at the wake of a node that presented itself again meanwhile")
-                        del pending[key]
-                    elif failed and any(tuple(k) == key for k, _ in o["sbuf"]):
-                        pass   # the wake's writes failed: the message is still held, a later wake must release it
-                    else:
-                        corr.violate("a held message was neither handed to the transport at its node's wake nor kept for a later one",
-                                     {**case, "held": pending[key], "held_since_step": _held_since(h, pending[key])})
-                        del pending[key]
-    if h.version in V20 and pending:
-        corr.violate("a held message was never released although its node woke", {"history": h.to_json(), "pending": [list(k) for k in pending]})
+                flagged = before["nodes"][f[0]]["sleeping"]
+                by_line = {}
+                for key in [k for k in pending if pending[k]["node"] == f[0]]:
+                    by_line.setdefault(pending[key]["line"], []).append(key)
+                for line, keys in by_line.items():
+                    # (several entries read the same line only when they are one object of the caller held under several keys)
+                    n_got = got.count(line)
+                    if n_got > len(keys):
+                        corr.violate("a held message was handed to the transport more than once at its node's wake", case)
+                    for j, key in enumerate(keys):
+                        if j < n_got:
+                            corr.count("oracle: held message released at its node's wake" if flagged else
+                                       "oracle: held message released at the wake of a node that presented itself again meanwhile")
+                            del pending[key]
+                        elif failed and any(tuple(k) == key for k, _ in o["sbuf"]):
+                            pass   # the wake's writes failed: the message is still held, a later wake must release it
+                        else:
+                            corr.violate("a held message was neither handed to the transport at its node's wake nor kept for a later one",
+                                         {**case, "held": line, "held_under": list(key), "held_since_step": pending[key]["step"],
+                                          **({"object": pending[key]["obj"]} if pending[key]["obj"] is not None else {})})
+                            del pending[key]
+    # (a held object the caller re-addressed to a node that never presented itself has no wake to wait for)
+    left = [k for k, e in pending.items() if e["node"] in io[-1]["nodes"]]
+    if h.version in V20 and left:
+        corr.violate("a held message was never released although its node woke", {"history": h.to_json(), "pending": [list(k) for k in left]})
 
 
-def _held_since(h: Hist, line: str):
-    """1-based step of the (last) send of `line` in the history (for the replay's reader)."""
-    steps = [i + 1 for i, op in enumerate(h.ops) if op[0] == "send" and op[1] is not None and line_of(op[1]) == line]
-    return steps[-1] if steps else None
+def _heartbeat_accepted(proto: str, f) -> bool:
+    """2.0 / 2.1: the wake signal is the heartbeat response, whose payload the handler reads as an integer (Python's
+    `int`) BEFORE it releases anything; a payload that is no integer makes the line an invalid message.  The wake
+    signal of 2.2 (pre-sleep notification) carries a payload nobody reads."""
+    if proto == "2.2":
+        return True
+    try:
+        int(f[5])
+    except ValueError:
+        return False
+    return True
 
 
 def _c12_between_kinds(v: str, n: int, m: int, pay):
@@ -1739,6 +1783,165 @@ def _c12_between_histories(ctx, corr: Corr):
             h.ops.append(wake(v, n))
         h.ops += [wake(v, 1), wake(v, 2)]
         hists.append(h)
+    return hists
+
+
+# ---- C12 and the caller's own objects ------------------------------------------------------------------------------
+#
+# `send(message)` is handed an object that belongs to the caller.  The property speaks of "every message ... and every
+# gateway state": the message of a call is the object as it reads at that call, whatever was done with the same
+# instance before - sent already (written, or still held for a sleeping node), attributes assigned since.  The
+# histories below use `gw`'s operations with a handle: one instance sent again after an assignment to any of its six
+# attributes (one, several, all; there and back), to an awake / sleeping / unknown destination, with and without
+# buffering; an instance assigned to WHILE it is held (and left alone, or sent again - under the same or another key);
+# an instance sent to an awake node that goes to sleep before the next send; one template object used for several
+# children and nodes; two instances that read the same; then every node wakes.
+
+
+def _c12_changes(f, other_node: int) -> dict:
+    """Named assignments to a caller's object reading `f` (a set command): what it reads afterwards."""
+    n, c, cmd, ack, t, p = f
+    c2, t2, p2 = (0 if c else 1), (3 if t == 2 else 2), _other_value(p)
+    return {
+        "payload": (n, c, cmd, ack, t, p2),
+        "child_id": (n, c2, cmd, ack, t, p),
+        "message_type": (n, c, cmd, ack, t2, p),
+        "node_id": (other_node, c, cmd, ack, t, p),
+        "ack": (n, c, cmd, 1 - ack, t, p),
+        "command": (n, c, 2, ack, t, p),                        # the set command becomes a request for the same value type
+        "payload and child_id": (n, c2, cmd, ack, t, p2),
+        "every attribute": (other_node, c2, 2, 1 - ack, t2, p2),
+    }
+
+
+def _c12_object_histories(ctx, corr: Corr):
+    t0 = gw.DEFAULT_TIME
+    hists = []
+
+    def S(fields, handle=None, buffer=True, faults=()):
+        return ("send", tuple(fields), buffer, faults) if handle is None else ("send", tuple(fields), buffer, faults, handle)
+
+    def preload(v):
+        pre = [("node", 1, 17, v, "", "", 0, 0, False, False), ("node", 2, 17, v, "", "", 0, 0, False, True)]
+        for n in (1, 2):
+            for c in (0, 1, 2):
+                pre.append(("child", n, c, c, 3, f"c{c}"))
+        return pre
+
+    # 1. the grid: assignment x destination x shape x version
+    payloads = ["1", "on ", "22.5", ""]
+    k = 0
+    for v in lib.VERSIONS:
+        wake_t = 32 if v == "2.2" else 22
+
+        def wake(n, faults=(), wake_t=wake_t):
+            return ("recv", f"{n};255;3;0;{wake_t};500", faults, t0)
+        wakes = [wake(2), wake(1), wake(2), wake(1)]
+        for dest, dest_name in ((1, "awake"), (2, "sleeping"), (3, "unknown")):
+            other = {1: 2, 2: 1, 3: 2}[dest]
+            for name in _c12_changes((dest, 1, 1, 0, 2, "1"), other):
+                k += 1
+                f0 = (dest, 1, 1, k % 2, 2, payloads[k % len(payloads)])
+                f1 = _c12_changes(f0, other)[name]
+                shapes = {
+                    "sent, assigned to, sent again": [S(f0, 1), S(f1, 1)],
+                    "sent, assigned to, sent again, unbuffered": [S(f0, 1, False), S(f1, 1, False)],
+                    "sent, assigned to, sent, assigned back, sent": [S(f0, 1), S(f1, 1), S(f0, 1)],
+                    "sent, assigned to while it may be held": [S(f0, 1), gw.assign_op(1, f1)],
+                    "sent, wake, assigned to, sent again": [S(f0, 1), wake(dest), S(f1, 1)],
+                    "sent, assigned to, assigned back": [S(f0, 1), gw.assign_op(1, f1), gw.assign_op(1, f0)],
+                    "two objects reading the same, one assigned to": [S(f0, 1), S(f0, 2), S(f1, 2), S(f0, 1)],
+                    "a message built for one call in between": [S(f0, 1), S(f1), S(f1, 1), S(f0)],
+                }
+                # not every shape for every cell (the cells rotate through them; each shape meets each assignment and
+                # each destination under some version)
+                names = list(shapes)
+                pick = [names[(k + j) % len(names)] for j in range(3)] if ctx.tier == "quick" else names
+                for shape in pick:
+                    hists.append(Hist(v, True, preload(v), shapes[shape] + wakes))
+                    corr.count("caller's object: " + shape)
+                corr.count("caller's object, assignment to " + name, len(pick))
+                corr.count("caller's object, destination " + dest_name, len(pick))
+        # the destination is awake at the first send and asleep at the second (2.x: its wake signal flags it)
+        for name in _c12_changes((1, 1, 1, 0, 2, "1"), 2):
+            f0 = (1, 1, 1, 0, 2, "1")
+            f1 = _c12_changes(f0, 2)[name]
+            hists.append(Hist(v, True, preload(v), [S(f0, 1), wake(1), S(f1, 1), wake(1), wake(2)]))
+            corr.count("caller's object: sent to an awake node, the node goes to sleep, assigned to, sent again")
+        # one template object for several children / value types / nodes
+        tmpl = [S((n, c, 1, 0, t, "1"), 1) for n in (1, 2, 3) for c in (0, 1) for t in (2, 3)]
+        hists.append(Hist(v, True, preload(v), tmpl + wakes))
+        hists.append(Hist(v, True, preload(v), [S((2, c, 1, 0, 2, p), 1) for p in ("1", "0") for c in (0, 1, 2)] + [wake(2)] +
+                          [S((2, 1, 1, 0, 2, p), 1) for p in ("1", "0", "1")] + wakes))
+        corr.count("caller's object: one template object for several children / types / nodes", 2)
+        # a command of every kind as one object whose payload is assigned to between two sends
+        tv = proto_tables(v)
+        for cmd, child, t in ((0, 1, 6), (2, 1, 2), (3, 255, int(list(tv["internal"])[-1])), (3, 255, 13), (4, 255, 1)):
+            for dest in (1, 2, 3):
+                hists.append(Hist(v, True, preload(v), [S((dest, child, cmd, 0, t, "a"), 1), S((dest, child, cmd, 0, t, "b"), 1),
+                                                        S((dest, child, cmd, 0, t, "a"), 1)] + wakes[:2]))
+                corr.count("caller's object: a command that is not a set command, sent again after an assignment")
+    # 2. random histories over a few objects of the caller, two registered nodes and an unknown one
+    rng = lib.rng_for(ctx.seed, "c12objects")
+    n_rand = 150 if ctx.tier == "quick" else 3000
+    for i in range(n_rand):
+        v = (lib.VERSIONS[2:] + lib.VERSIONS)[i % 8]
+        wake_t = 32 if v == "2.2" else 22
+        h = Hist(v, rng.random() < 0.7, preload(v))
+        reads = {}                                     # handle -> what the object reads now
+        uniq = [0]
+
+        def rand_fields():
+            uniq[0] += 1
+            return (rng.choice((1, 2, 2, 2, 3)), rng.choice((0, 1, 2)), 1, rng.choice((0, 1)), rng.choice((2, 3)),
+                    rng.choice(("1", "0", "on ", f"u{uniq[0]}", f"u{uniq[0]}", "")))
+
+        def reassigned(f):
+            """`f` with one, a few or all attributes assigned to (the command stays a set command nine times out of ten:
+            only set commands are ever held)."""
+            g = list(rand_fields())
+            g[2] = 2 if rng.random() < 0.1 else f[2]
+            idx = rng.sample(range(6), rng.choice((1, 1, 1, 2, 3, 6)))
+            return tuple(g[j] if j in idx else f[j] for j in range(6))
+        for _ in range(rng.randint(3, 14 if ctx.tier == "quick" else 40)):
+            r = rng.random()
+            if r < 0.45:
+                hd = rng.choice((1, 1, 2, 3))
+                if hd not in reads:
+                    f = rand_fields()
+                elif rng.random() < 0.85:
+                    f = reassigned(reads[hd])
+                else:
+                    f = reads[hd]                      # sent again as it is
+                reads[hd] = f
+                h.ops.append(S(f, hd, rng.random() < 0.9))
+                corr.count("random objects: send of a caller's object")
+            elif r < 0.57 and reads:
+                hd = rng.choice(sorted(reads))
+                reads[hd] = reassigned(reads[hd])
+                h.ops.append(gw.assign_op(hd, reads[hd]))
+                corr.count("random objects: assignment without a send")
+            elif r < 0.67:
+                h.ops.append(S(rng.choice(sorted(reads.values())) if reads and rng.random() < 0.5 else rand_fields(), None, rng.random() < 0.9))
+            elif r < 0.87:
+                n = rng.choice((1, 2, 2))
+                if rng.random() < 0.1:
+                    h.ops.append(("recv", f"{n};255;3;0;{wake_t};500", gw.gen_faults(rng, 0.3), t0))
+                h.ops.append(("recv", f"{n};255;3;0;{wake_t};500", (), t0))
+            elif r < 0.92:
+                h.ops.append(("recv", f"{rng.choice((1, 2))};255;0;0;17;{v}", (), t0))       # the node boots again
+            elif r < 0.95:
+                h.ops.append(gw.SESSION)
+            else:
+                # any line from one of the two nodes, or a rejected one (not from the gateway: the active protocol stays)
+                line = gw.gen_line(rng, v, [1, 2])
+                while line.count(";") >= 5 and line.split(";")[0] not in ("1", "2"):
+                    line = gw.gen_line(rng, v, [1, 2])
+                h.ops.append(("recv", line, (), t0))
+        # every node an object may be addressed to wakes at the end (3 is registered only if an id request came by)
+        h.ops += [("recv", f"{n};255;3;0;{wake_t};500", (), t0) for n in (1, 2, 3, 1, 2, 3)]
+        hists.append(h)
+    corr.count("histories: random histories over the caller's objects", n_rand)
     return hists
 
 
@@ -2104,7 +2307,9 @@ def run_c12(ctx) -> Corr:
                 "sleeping nodes at the same time (many keys over few nodes, nodes taking turns, ~200 sleeping nodes, few keys "
                 "replaced hundreds of times, a random mixture with awake / unknown destinations, wakes in between and a wake with "
                 "a failing write; 1 500 - 20 000 keys, thorough: up to 250 000), every send returning normally, then every node "
-                "wakes: the last line sent for every key is handed to the transport exactly once. "
+                "wakes: the last line sent for every key is handed to the transport exactly once; plus the caller's own Message "
+                "objects (_c12_object_histories): one instance sent again after an assignment to any attribute, assigned to "
+                "while it is held, used as a template, next to one-call messages. "
                 "non-trivial = distinct (version, destination state, message, flag, fault); scale: distinct held sends")
     corr.notes.append("scale scenarios (_c12_scale): judged by an observational oracle of their own (_c12_scale_oracle: outcome, write "
                       "attempts, the destination's public `sleeping` flag at the time of the send - never the gateway's buffer). The "
@@ -2173,6 +2378,15 @@ def run_c12(ctx) -> Corr:
                       "every Python whitespace kind, delimiters, empty, numeric-looking, non-ASCII, control characters, very long; "
                       "second node, second key, overwrite in both orders) are recv / send operations only: compared with the "
                       "Lean model on the writes view and judged by _c12_oracle")
+    # the caller's own objects: the same instance sent again after an assignment, assigned to while it is held
+    n_base = len(hists)
+    hists += _c12_object_histories(ctx, corr)
+    corr.count("histories: the caller's own Message objects", len(hists) - n_base)
+    corr.notes.append("the histories over the caller's own Message objects (_c12_object_histories: send operations with a handle "
+                      "and `assign` operations, see harness/gw.py) run through the Lean model's object layer (Model/Objects.lean: "
+                      "`gsendo` / `gassign`; the sleep buffer holds the caller's object, so an assignment to a held object is "
+                      "seen at its release) on the writes view, and are judged by _c12_oracle, for which the message of a call "
+                      "is the object as it reads at the call")
     impl = run_both(hists, corr, ctx, "writes", "writes view")
     for h, io in zip(hists, impl):
         _c12_oracle(corr, h, io)
